@@ -201,6 +201,7 @@ func main() {
 	scs = append(scs, witnessScenarios()...)
 	scs = append(scs, globalGrid()...)
 	scs = append(scs, funcGrid()...)
+	scs = append(scs, reexportGrid()...)
 	scs = append(scs, memoryGrid()...)
 	scs = append(scs, tableGrid()...)
 	scs = append(scs, captureGrid()...)
